@@ -1,0 +1,80 @@
+//go:build verif
+// +build verif
+
+// Package quic (verif build): a stub of the QUIC transport with the same
+// exported API but no dependency on quic-go, so that the root package can be
+// linked by test binaries under toolchains where quic-go's qtls init panics.
+// Nothing here is used unless the network is "quic".
+package quic
+
+import (
+	"context"
+	"crypto/tls"
+	"errors"
+	"net"
+	"time"
+)
+
+// Config stands in for quic-go's Config in the verif build.
+type Config struct{}
+
+var errStubbed = errors.New("quic: transport is stubbed out in the verif build")
+
+// DialAddrContext always fails in the verif build.
+func DialAddrContext(ctx context.Context, network string, laddr *net.UDPAddr, raddr string, tlsConf *tls.Config, config *Config) (net.Conn, error) {
+	return nil, errStubbed
+}
+
+// Listener is a stub of the QUIC listener.
+type Listener struct{}
+
+var _ net.Listener = (*Listener)(nil)
+
+// ListenAddr always fails in the verif build.
+func ListenAddr(network, addr string, tlsConf *tls.Config, config *Config) (*Listener, error) {
+	return nil, errStubbed
+}
+
+// ListenUDPAddr always fails in the verif build.
+func ListenUDPAddr(network string, udpAddr *net.UDPAddr, tlsConf *tls.Config, config *Config) (*Listener, error) {
+	return nil, errStubbed
+}
+
+// Listen always fails in the verif build.
+func Listen(conn net.PacketConn, tlsConf *tls.Config, config *Config) (*Listener, error) {
+	return nil, errStubbed
+}
+
+// PacketConn returns nil.
+func (l *Listener) PacketConn() net.PacketConn { return nil }
+
+// Accept always fails.
+func (l *Listener) Accept() (net.Conn, error) { return nil, errStubbed }
+
+// Close does nothing.
+func (l *Listener) Close() error { return nil }
+
+// Addr returns nil.
+func (l *Listener) Addr() net.Addr { return nil }
+
+// Conn is a stub of the QUIC connection.
+type Conn struct{}
+
+var _ net.Conn = (*Conn)(nil)
+
+func (c *Conn) Read(b []byte) (n int, err error)   { return 0, errStubbed }
+func (c *Conn) Write(b []byte) (n int, err error)  { return 0, errStubbed }
+func (c *Conn) Close() error                       { return nil }
+func (c *Conn) LocalAddr() net.Addr                { return nil }
+func (c *Conn) RemoteAddr() net.Addr               { return nil }
+func (c *Conn) SetDeadline(t time.Time) error      { return errStubbed }
+func (c *Conn) SetReadDeadline(t time.Time) error  { return errStubbed }
+func (c *Conn) SetWriteDeadline(t time.Time) error { return errStubbed }
+
+// InheritedListen always fails in the verif build.
+func InheritedListen(network, laddr string, tlsConf *tls.Config, config *Config) (net.Listener, error) {
+	return nil, errStubbed
+}
+
+// SetInherited does nothing in the verif build.
+func SetInherited() error { return nil }
